@@ -1349,7 +1349,45 @@ func YamlBodyDecoder(body io.Reader, header http.Header, schema *openapi3.Schema
 	if err := yaml.NewDecoder(body).Decode(&value); err != nil {
 		return nil, &ParseError{Kind: KindInvalidFormat, Cause: err}
 	}
+	if reason := notJSONData(value); reason != "" {
+		return nil, &ParseError{Kind: KindInvalidFormat, Reason: reason}
+	}
 	return value, nil
+}
+
+// notJSONData tells why a decoded YAML value is outside the JSON data model the schemas are written for:
+// a mapping with a key that is not a string, or a number that is not finite. "" when it is inside.
+func notJSONData(value any) string {
+	switch v := value.(type) {
+	case map[any]any:
+		for k := range v {
+			if _, ok := k.(string); !ok {
+				return "a mapping key is not a string"
+			}
+		}
+		for _, x := range v {
+			if r := notJSONData(x); r != "" {
+				return r
+			}
+		}
+	case map[string]any:
+		for _, x := range v {
+			if r := notJSONData(x); r != "" {
+				return r
+			}
+		}
+	case []any:
+		for _, x := range v {
+			if r := notJSONData(x); r != "" {
+				return r
+			}
+		}
+	case float64:
+		if math.IsNaN(v) || math.IsInf(v, 0) {
+			return "number is not finite"
+		}
+	}
+	return ""
 }
 
 func UrlencodedBodyDecoder(body io.Reader, header http.Header, schema *openapi3.SchemaRef, encFn EncodingFn) (any, error) {
